@@ -73,14 +73,17 @@ inductive Err where
   | any
   | panic
   | exit
+  | nz          -- some errno other than 0 (which one depends on the host file system / network)
 deriving Repr, DecidableEq
 
 inductive Kind where
   | stdin | stdout | stderr | pre | file | dir
+  | lsn    -- pre-opened TCP listener (experimental/sock)
+  | conn   -- accepted TCP connection
 deriving Repr, DecidableEq
 
 def Kind.isPreopen : Kind → Bool
-  | .stdin | .stdout | .stderr | .pre => true
+  | .stdin | .stdout | .stderr | .pre | .lsn => true
   | _ => false
 
 abbrev Fds := DescTable.Table Kind
@@ -108,6 +111,17 @@ structure Host where
   mono : Nat := 0
   monoRes : Nat := 0
   preName : List Nat := []
+  /-- name lengths of the entries of the pre-opened directory / of the opened sub-directory, in the order the host
+  file system lists them (without "." and "..") -/
+  preEntries : List Nat := []
+  dirEntries : List Nat := []
+  /-- the same listings with the names themselves and the WASI file type of every entry (when known: the model then
+  predicts the bytes of the dirents, not only their extent) -/
+  preNames : List (List Nat × Nat) := []
+  dirNames : List (List Nat × Nat) := []
+  /-- state of the dirent caches of the directory descriptors: `false` = fresh (nothing read yet), `true` = the
+  complete listing has been read before and is cached (`countRead = len`, `eof`) -/
+  cacheFull : Bool := false
 deriving Repr
 
 /-- `nullTerminatedByteCount` -/
@@ -233,6 +247,11 @@ def pollOneoff (fixed : Bool) (fds : Fds) (m : Mem) (inp out n res : Nat) : Res 
   pollAfter fds inp inLen out outLen n res [(inp, inLen), (out, outLen), (res, 4)]
     { m := m1.write res (bytesLE 4 n), ws := Wr.bytes res (bytesLE 4 n) :: ws, nevents := 0, blocking := [] }
 
+/-- a write that happens when the pointer is inside the memory (the host code does not look at the result, or the
+call fails with EFAULT otherwise) -/
+def optRegion (m : Mem) (off len : Nat) : List Wr := if m.has off len then [Wr.region off len] else []
+def optBytes (m : Mem) (off : Nat) (bs : List Nat) : List Wr := if m.has off bs.length then [Wr.bytes off bs] else []
+
 /-! ### readv / writev (fs.go) -/
 
 inductive Reader where
@@ -248,18 +267,21 @@ structure RvSt where
   nread : Nat
 
 /-- `readv` with a stream reader. `some e` = returned early with `e`. -/
-def readvLoop (enosys : Bool) (iovs iovsStop : Nat) : Nat → Nat → RvSt → RvSt × Option Err
+def readvLoop (enosys : Bool) (snap : Option Mem) (iovs iovsStop : Nat) : Nat → Nat → RvSt → RvSt × Option Err
   | 0, _, s => (s, none)
   | fuel + 1, pos, s =>
     if pos ≥ iovsStop then (s, none) else
     -- le.Uint32(iovsBuf[iovsPos:]) and le.Uint32(iovsBuf[iovsPos+4:])
     if pos + 4 > iovsStop then (s, some .panic) else
-    let offset := le32 s.m (iovs + pos)
+    -- the entries are read from the live memory (as-is: `snap = none`), or from a copy of the iovec array taken
+    -- when the call starts (repaired variant, F62)
+    let em := snap.getD s.m
+    let offset := le32 em (iovs + pos)
     let p4 := w32 (pos + 4)
     if p4 > iovsStop ∨ p4 + 4 > iovsStop then (s, some .panic) else
-    let l := le32 s.m (iovs + p4)
+    let l := le32 em (iovs + p4)
     let next := w32 (pos + 8)
-    if l = 0 then readvLoop enosys iovs iovsStop fuel next s else
+    if l = 0 then readvLoop enosys snap iovs iovsStop fuel next s else
     if !s.m.has offset l then (s, some efault) else
     let s := { s with acc := (offset, l) :: s.acc }
     if enosys then (s, some ebadf) else
@@ -267,7 +289,7 @@ def readvLoop (enosys : Bool) (iovs iovsStop : Nat) : Nat → Nat → RvSt → R
     let bs := s.src.take k
     let s := if k = 0 then s else { s with m := s.m.write offset bs, ws := Wr.bytes offset bs :: s.ws }
     let s := { s with src := s.src.drop k, nread := w32 (s.nread + k) }
-    if k < l then (s, none) else readvLoop enosys iovs iovsStop fuel next s
+    if k < l then (s, none) else readvLoop enosys snap iovs iovsStop fuel next s
 
 /-- all iovec buffers named by the first `cnt` entries that are readable (spec side, over ℕ) -/
 def iovRegions (m : Mem) (iovs : Nat) : Nat → Nat → List (Nat × Nat)
@@ -276,36 +298,51 @@ def iovRegions (m : Mem) (iovs : Nat) : Nat → Nat → List (Nat × Nat)
     if iovs + 8 * i + 8 ≤ m.size then (le32 m (iovs + 8 * i), le32 m (iovs + 8 * i + 4)) :: iovRegions m iovs cnt (i + 1)
     else []
 
-def fdReadCommon (rd : Reader) (m : Mem) (iovs iovsCount res : Nat) : Res :=
+/-- the buffers of the iovec array that `readv` can hand to the reader: those inside the memory -/
+def iovWritable (m : Mem) (iovs iovsStop : Nat) : List Wr :=
+  ((iovRegions m iovs (min (iovsStop / 8) (m.size / 8 + 1)) 0).filter (fun r => m.has r.1 r.2)).map
+    (fun r => Wr.region r.1 r.2)
+
+
+/-- some readable, non-empty iovec buffer overlaps the iovec array itself: what is read into it may change the
+entries that `readv` reads next (F62) -/
+def iovAliased (m : Mem) (iovs iovsStop : Nat) : Bool :=
+  (iovRegions m iovs (min (iovsStop / 8) (m.size / 8 + 1)) 0).any (fun r =>
+    m.has r.1 r.2 && decide (0 < r.2) && decide (r.1 < iovs + iovsStop) && decide (iovs < r.1 + r.2))
+
+/-- `fixedRead` = the repaired `readv` (F62): the iovec array is copied when the call starts -/
+def fdReadCommon (fixedRead : Bool) (rd : Reader) (m : Mem) (iovs iovsCount res : Nat) : Res :=
   let iovsStop := w32 (iovsCount * 8)   -- iovsCount << 3
   if !m.has iovs iovsStop then { err := efault } else
   let acc := [(iovs, iovsStop)]
   match rd with
   | .unknown =>
-    { err := .any, acc := acc,
-      writes := (iovRegions m iovs (min (iovsStop / 8) (m.size / 8 + 1)) 0).map (fun r => Wr.region r.1 (min r.2 m.size)) ++ [Wr.region res 4] }
+    -- as-is, with host-chosen data read into a buffer that covers later entries: the next reads go wherever that
+    -- data says (inside the memory)
+    if !fixedRead && iovAliased m iovs iovsStop then { err := .any, acc := acc, writes := [Wr.region 0 m.size] } else
+    { err := .any, acc := acc, writes := iovWritable m iovs iovsStop ++ optRegion m res 4 }
   | _ =>
     let (src, en) := match rd with
       | .stream s => (s, false)
       | _ => ([], true)
-    match readvLoop en iovs iovsStop (iovsStop / 8 + 1) 0 { m := m, ws := [], acc := acc, src := src, nread := 0 } with
+    match readvLoop en (if fixedRead then some m else none) iovs iovsStop (iovsStop / 8 + 1) 0 { m := m, ws := [], acc := acc, src := src, nread := 0 } with
     | (s, some e) => { err := e, acc := s.acc.reverse, writes := s.ws.reverse }
     | (s, none) =>
       if !s.m.has res 4 then { err := efault, acc := s.acc.reverse, writes := s.ws.reverse }
       else { err := .errno 0, acc := ((res, 4) :: s.acc).reverse, writes := (Wr.bytes res (bytesLE 4 s.nread) :: s.ws).reverse }
 
-def fdRead (h : Host) (fds : Fds) (m : Mem) (fd iovs iovsCount res : Nat) : Res :=
+def fdRead (fixedRead : Bool) (h : Host) (fds : Fds) (m : Mem) (fd iovs iovsCount res : Nat) : Res :=
   match lookupFd fds fd with
   | none => { err := ebadf }
-  | some .stdin => fdReadCommon (.stream h.stdin) m iovs iovsCount res
-  | some .stdout | some .stderr => fdReadCommon .enosys m iovs iovsCount res
-  | some _ => fdReadCommon .unknown m iovs iovsCount res
+  | some .stdin => fdReadCommon fixedRead (.stream h.stdin) m iovs iovsCount res
+  | some .stdout | some .stderr => fdReadCommon fixedRead .enosys m iovs iovsCount res
+  | some _ => fdReadCommon fixedRead .unknown m iovs iovsCount res
 
-def fdPread (fds : Fds) (m : Mem) (fd iovs iovsCount res : Nat) : Res :=
+def fdPread (fixedRead : Bool) (fds : Fds) (m : Mem) (fd iovs iovsCount res : Nat) : Res :=
   match lookupFd fds fd with
   | none => { err := ebadf }
-  | some .stdin | some .stdout | some .stderr => fdReadCommon .enosys m iovs iovsCount res
-  | some _ => fdReadCommon .unknown m iovs iovsCount res
+  | some .stdin | some .stdout | some .stderr => fdReadCommon fixedRead .enosys m iovs iovsCount res
+  | some _ => fdReadCommon fixedRead .unknown m iovs iovsCount res
 
 inductive Writer where
   | accept      -- writes everything (stdout/stderr on an io.Writer)
@@ -335,7 +372,7 @@ def fdWriteCommon (w : Writer) (m : Mem) (iovs iovsCount res : Nat) : Res :=
   let iovsStop := w32 (iovsCount * 8)
   if !m.has iovs iovsStop then { err := efault } else
   match writevLoop w m iovs iovsStop (iovsStop / 8 + 1) 0 [(iovs, iovsStop)] 0 with
-  | (acc, _, some .any) => { err := .any, acc := acc.reverse, writes := [Wr.region res 4] }
+  | (acc, _, some .any) => { err := .any, acc := acc.reverse, writes := optRegion m res 4 }
   | (acc, _, some e) => { err := e, acc := acc.reverse }
   | (acc, nw, none) =>
     if !m.has res 4 then { err := efault, acc := acc.reverse }
@@ -426,7 +463,7 @@ def randomGet (m : Mem) (buf bufLen : Nat) : Res :=
 def preopenPath (h : Host) (fds : Fds) (fd : Nat) : Option (List Nat) :=
   match lookupFd fds fd with
   | some .pre => some h.preName
-  | some .stdin | some .stdout | some .stderr => some []
+  | some .stdin | some .stdout | some .stderr | some .lsn => some []
   | _ => none
 
 def fdPrestatGet (h : Host) (fds : Fds) (m : Mem) (fd res : Nat) : Res :=
@@ -485,69 +522,9 @@ def statLike (fds : Fds) (m : Mem) (fd res size : Nat) : Res :=
   | some _ => { err := .any, acc := [(res, size)], writes := [Wr.region res size] }
 
 /-- descriptor looked up first, result written last (fd_seek, fd_tell) -/
-def seekLike (fds : Fds) (fd res : Nat) : Res :=
+def seekLike (fds : Fds) (m : Mem) (fd res : Nat) : Res :=
   match lookupFd fds fd with
   | none => { err := ebadf }
-  | some _ => { err := .any, writes := [Wr.region res 8] }
-
-/-! ### dispatcher and the designated output regions (specification, over ℕ) -/
-
-def modelled : List String :=
-  ["poll_oneoff", "fd_read", "fd_pread", "fd_write", "fd_pwrite", "args_get", "environ_get", "args_sizes_get",
-   "environ_sizes_get", "clock_res_get", "clock_time_get", "random_get", "fd_prestat_get", "fd_prestat_dir_name",
-   "fd_renumber", "fd_close", "fd_fdstat_get", "fd_filestat_get", "fd_seek", "fd_tell", "proc_exit", "sched_yield"]
-
-def call (fixed : Bool) (h : Host) (fds : Fds) (m : Mem) (fn : String) (a : List Nat) : Option Res :=
-  match fn, a with
-  | "poll_oneoff", [i, o, n, r] => some (pollOneoff fixed fds m (w32 i) (w32 o) (w32 n) (w32 r))
-  | "fd_read", [fd, iovs, cnt, r] => some (fdRead h fds m (w32 fd) (w32 iovs) (w32 cnt) (w32 r))
-  | "fd_pread", [fd, iovs, cnt, _, r] => some (fdPread fds m (w32 fd) (w32 iovs) (w32 cnt) (w32 r))
-  | "fd_write", [fd, iovs, cnt, r] => some (fdWrite fds m (w32 fd) (w32 iovs) (w32 cnt) (w32 r))
-  | "fd_pwrite", [fd, iovs, cnt, _, r] => some (fdPwrite fds m (w32 fd) (w32 iovs) (w32 cnt) (w32 r))
-  | "args_get", [p, q] => some (argsGet h m (w32 p) (w32 q))
-  | "environ_get", [p, q] => some (environGet h m (w32 p) (w32 q))
-  | "args_sizes_get", [p, q] => some (argsSizesGet h m (w32 p) (w32 q))
-  | "environ_sizes_get", [p, q] => some (environSizesGet h m (w32 p) (w32 q))
-  | "clock_res_get", [id, r] => some (clockResGet h m (w32 id) (w32 r))
-  | "clock_time_get", [id, _, r] => some (clockTimeGet h m (w32 id) (w32 r))
-  | "random_get", [b, l] => some (randomGet m (w32 b) (w32 l))
-  | "fd_prestat_get", [fd, r] => some (fdPrestatGet h fds m (w32 fd) (w32 r))
-  | "fd_prestat_dir_name", [fd, p, l] => some (fdPrestatDirName h fds m (w32 fd) (w32 p) (w32 l))
-  | "fd_renumber", [f, t] => some (renumber none fds (w32 f) (w32 t))
-  | "fd_close", [fd] => some (fdClose fds (w32 fd))
-  | "fd_fdstat_get", [fd, r] => some (statLike fds m (w32 fd) (w32 r) 24)
-  | "fd_filestat_get", [fd, r] => some (statLike fds m (w32 fd) (w32 r) 64)
-  | "fd_seek", [fd, _, _, r] => some (seekLike fds (w32 fd) (w32 r))
-  | "fd_tell", [fd, r] => some (seekLike fds (w32 fd) (w32 r))
-  | "proc_exit", [_] => some { err := .exit }
-  | "sched_yield", [] => some { err := .errno 0 }
-  | _, _ => none
-
-/-- Output regions the signature designates, over the naturals (no wrap-around). -/
-def designated (h : Host) (m : Mem) (fn : String) (a : List Nat) : List (Nat × Nat) :=
-  match fn, a with
-  | "poll_oneoff", [_, o, n, r] => [(o, 32 * n), (r, 4)]
-  | "fd_read", [_, iovs, cnt, r] => iovRegions m iovs cnt 0 ++ [(r, 4)]
-  | "fd_pread", [_, iovs, cnt, _, r] => iovRegions m iovs cnt 0 ++ [(r, 4)]
-  | "fd_write", [_, _, _, r] => [(r, 4)]
-  | "fd_pwrite", [_, _, _, _, r] => [(r, 4)]
-  | "args_get", [p, q] => [(p, 4 * h.args.length), (q, nulSize h.args)]
-  | "environ_get", [p, q] => [(p, 4 * h.env.length), (q, nulSize h.env)]
-  | "args_sizes_get", [p, q] => [(p, 4), (q, 4)]
-  | "environ_sizes_get", [p, q] => [(p, 4), (q, 4)]
-  | "clock_res_get", [_, r] => [(r, 8)]
-  | "clock_time_get", [_, _, r] => [(r, 8)]
-  | "random_get", [b, l] => [(b, l)]
-  | "fd_prestat_get", [_, r] => [(r, 8)]
-  | "fd_prestat_dir_name", [_, p, l] => [(p, l)]
-  | "fd_fdstat_get", [_, r] => [(r, 24)]
-  | "fd_filestat_get", [_, r] => [(r, 64)]
-  | "fd_seek", [_, _, _, r] => [(r, 8)]
-  | "fd_tell", [_, r] => [(r, 8)]
-  | _, _ => []
-
-/-- every byte of the write lies in one of the regions -/
-def Wr.within (w : Wr) (rs : List (Nat × Nat)) : Prop :=
-  ∀ a, w.off ≤ a → a < w.off + w.len → ∃ r ∈ rs, r.1 ≤ a ∧ a < r.1 + r.2
+  | some _ => { err := .any, writes := optRegion m res 8 }
 
 end Wz.Model.Wasi
